@@ -58,6 +58,8 @@ func main() {
 	if r.Thorough() {
 		macro = "macro3"
 	}
+	// correct nodes that commit the block of round 1 while standing in round 2, then the next height
+	scen = append(scen, netsim.Scenario{Cfg: mk("4x1-late-commit-then-next-height", one, netsim.Config{Byz: []int{3}, NoByzMenu: true, Driver: "late-commit", TargetHeight: 2}), Bound: b - 1})
 	// a correct node cut off for K failed rounds, the Byzantine validator falling silent, then the network heals
 	lag := "lagging2"
 	if r.Thorough() {
